@@ -39,7 +39,7 @@ def main():
   out = {}
   for name, keys, seed in job['jobs']:
     try:
-      out['%s|%s|%d' % (name, '+'.join(keys), seed)] = c14.run_designer(name, tuple(keys), seed, job['rounds'], job['batch'])
+      out['%s|%s|%d' % (name, '+'.join(keys), seed)] = c14.run_designer(name, tuple(keys), seed, job.get('gp_rounds', job['rounds']) if name.startswith('gp') else job['rounds'], job['batch'])
     except Exception as e:  # pylint: disable=broad-except
       out['%s|%s|%d' % (name, '+'.join(keys), seed)] = 'ERR:' + type(e).__name__
   for algo, exp, seed in job.get('benchmarks', []):
